@@ -55,6 +55,9 @@ Gens        == { "z", "c" }
 Rot(g, v)   == IF g = "z" THEN RotZ(1, v) ELSE Cyc(v)
 RotS(g, s)  == [ i \in 1..Len(s) |-> Rot(g, s[i]) ]
 
+\* generation of the polar-cap family (printed once)
+EmitCap == (S = <<>> /\ q = <<0, 0, 1>>) => PrintT(<<"CAP", CapPlan>>)
+
 OrderLaws == S # <<>> =>
     \A i, j, l \in 1..Len(S) :
       LET a == S[i]  b == S[j]  c == S[l] IN
